@@ -495,7 +495,7 @@ def gibbs_joint(rec, ctx=None):
         d = Gamma(1.0, 1e-1, name="d")
         s = Gamma(1.0, 1e-1, name="s")
         if rec.get("xprior", "gauss") == "gmrf":
-            x = GMRF(np.zeros(n), prec=lambda d: d, name="x")
+            x = GMRF(np.zeros(n), prec=lambda d: d, bc_type=rec.get("bc", "zero"), name="x")
         else:
             x = Gaussian(np.zeros(n), prec=lambda d: d, name="x")
         y = Gaussian(mk_model()(x), cov=lambda s: 1 / s, name="y")
@@ -586,6 +586,8 @@ def gen_gibbs_scenario(r, legacy=False):
     n = r.randint(2, 4)
     rec = {"zseed": r.randrange(1, 10 ** 6), "n": n, "m": n + r.randint(0, 2), "shape": shape,
            "xprior": r.choice(["gauss", "gmrf"])}
+    if shape == "x_d_s" and rec["xprior"] == "gmrf" and r.random() < 0.4:
+        rec["bc"] = "neumann"          # improper field: the structure matrix has rank n-1
     if r.random() < 0.5:
         rec["perm"] = [r.randrange(10) for _ in range(4)]      # sweep order differs from the textbook order
     strat = {}
